@@ -72,6 +72,7 @@ type FnCtx struct {
 	unrollTop  bool
 	usesPtrTag bool
 	wfDone     map[string]bool
+	boxInv     map[string]bool
 	next0      *Term
 	epochs     int
 	ghostSorts map[string]Sort
